@@ -72,6 +72,60 @@ CLAIMS.update({
     ),
 })
 
+CLAIMS.update({
+    "C10": (
+        "3/C10",
+        "linear-form normalisation of the freshness comparison on every load path; partial evaluation under fromcache; "
+        "event-order analysis (last mutation < savecache < return to the protocol) over prepare()+getdirlist() per class",
+        "All four mechanisms the property rests on are code shapes: the cache is deserialised only under the strict inequality "
+        "time.time() - mtime(cache file) < cachetime option (any algebraically equivalent spelling accepted, any other quantity "
+        "or a non-strict operator rejected); fromcache is false unless the load succeeded and suppresses the rewrite; the entry "
+        "list is pickled after its last mutation and before any renderer can touch it; the UMN merge/sort is skipped on a hit. "
+        "Equality of cached and generated listings along histories is not decided.",
+        "Trusted: time.time and stat semantics; the walker's loop unrolling (0,1,2 iterations).",
+    ),
+    "C11": (
+        "3/C11",
+        "effect-site enumeration of deserialisations + try/handler coverage + failure-path walk",
+        "Every load of a server-written cache (pickle.load of the directory cache, shelve.open(...,'r') of the ZIP index) is inside "
+        "a try whose handlers cover every exception class a truncated or zero-filled file can raise, and the failure path "
+        "regenerates without marking the data as cached. Because a pickle's only STOP opcode is its last byte, no proper prefix "
+        "loads successfully, so this structural condition covers every truncation point.",
+        "Trusted: CPython pickle framing; dbm backends fail at open for a truncated file (lazily detected damage is not decided).",
+    ),
+    "C12": (
+        "3/C12",
+        "may-raise summaries over the call graph + lexical containment of try blocks inside per-entry loops; partial evaluation "
+        "of handler tests under a missing stat result",
+        "In every loop over directory entries (all classes of the DirHandler family, with their resolved hook overrides) each call "
+        "that can raise FileNotFound or OSError for one entry is caught inside the loop body by a handler that lets the loop go on; "
+        "the stat before handler selection is absorbed and no handler test subscripts a missing stat result.",
+        "Trusted: the may-raise model (handler multiplexer raises FileNotFound; stat/open/listdir raise OSError; exists/isdir/isfile do not).",
+    ),
+    "C13": (
+        "3/C13",
+        "context-sensitive provenance analysis (trusted / escaped / quote-escaped / url-quoted / tainted / multi-line) with HTML "
+        "lexical-context tracking over template literals; filter-language check for the redirect page",
+        "Every operand interpolated into HTML/WML the server builds is html.escape'd (text) or quote-escaped/percent-encoded "
+        "(double-quoted attribute); HTTP header lines interpolate only server-chosen values; the redirect page escapes its URL and "
+        "its filter rejects quotes and control characters; Gopher+ attribute text is emitted line by line behind a one-space prefix; "
+        "HTML titles and mail subjects are whitespace-collapsed before becoming names. Since escaping is a property of the code "
+        "path every datum takes, the provenance analysis decides it for all inputs.",
+        "Trusted: html.escape / urllib.parse.quote semantics; configuration text (pagetopper, footer) is trusted markup; seeds of "
+        "tainted fields (entry name/selector/host, request data, exception text).",
+    ),
+    "C20": (
+        "3/C20",
+        "try/handler structure analysis of the connection handler and server workers; guard facts for e.args indexing; "
+        "resource-scoping classification of every acquisition site (with / factory / local / attribute+finally / refcount after cycle break)",
+        "The connection handler catches I/O errors and Exception around protocol.handle(), logs them with the exception and protocol "
+        "object, never re-raises; both servers wrap finish_request and shut the request down in a finally; the protocols' I/O-error "
+        "replies do not index exception arguments; every file/archive/mailbox acquisition on the request path is scoped; the log "
+        "line carries client address, protocol class and the exception's own class.",
+        "Trusted: CPython reference counting closes a descriptor whose last reference dies; socketserver's handle_error/shutdown_request.",
+    ),
+})
+
 NOT_APPLICABLE = {
     "C09": "input/output relation of the gophermap line parser against a reference reading of the file; no structural "
            "invariant short of re-implementing (i.e. running) the parser - static analysis cannot decide it (DESIGN.md section 4)",
